@@ -5,23 +5,31 @@ import numpy as np
 
 ID = "C10"
 PROPS_FILE = "theories/Props/C10.v"
-EXTRACT = ("theories/Extract/XC10.v", "c10", ["entry_emd", "entry_cert", "entry_partial", "entry_brute"])
+EXTRACT = ("theories/Extract/XC10.v", "c10", ["entry_emd", "entry_emdc", "entry_cert", "entry_partial", "entry_brute"])
 PYX = {"_fastemd.pyx": ["emd_hat_int32"]}
-RULE = ("one case = one instance (p, q, c, penalty|None); the implementation is called through centrosome.fastemd for all "
-        "variants: flow type NO_FLOW / WITHOUT_TRANSHIPMENT_FLOW / WITHOUT_EXTRA_MASS_FLOW x gd_metric off (and on when the "
-        "generator built c from a metric). Shapes 1..7 (thorough ..12, some ..25), 40% unequal lengths; masses 0..50 with "
-        "many zeros, equal-mass (permuted / rebalanced) and unequal-mass, all-zero histograms, a few large-value cases; "
-        "ground distances: |i-j|, thresholded |i-j|, 2-D grid L1, shortest-path closure of a random graph (metrics), "
-        "symmetric non-metric, arbitrary, constant, all-zero, 'many entries equal to max' (exercises node removal and "
-        "pre_flow_cost); penalty None / 0 / small / about max/2 / large. Tiny class (<=3x3, masses <=4) also against the "
-        "brute-force enumeration. Non-trivial = at least 2 non-empty bins on each side, non-constant c, and an optimal "
-        "flow with >= 2 non-zero entries; distinct by hash of the case.")
+RULE = ("one case = one instance (p, q, c, penalty|None) plus an encoding; the implementation is called through "
+        "centrosome.fastemd for all variants: flow type NO_FLOW / WITHOUT_TRANSHIPMENT_FLOW / WITHOUT_EXTRA_MASS_FLOW x gd_metric "
+        "off (and on when the generator built c from a metric). Encoding (70% of the generated cases): histograms as "
+        "int8/16/32/64, uint8/16/32/64, float32/64 arrays or Python lists (values always representable), contiguous or "
+        "strided views; cost matrix in nine dtypes, C / Fortran / strided / transposed / negative-stride layouts; penalty as "
+        "int, NumPy int32/int64 or float; keyword or positional call; the arguments must come back unmodified. Shapes 1..7 "
+        "(thorough ..12, some ..25), 40% unequal lengths, plus a shape-extreme class (length-1 histograms, 1-2 bins against "
+        "up to 20, one side all zero, ties / zeros / upper-triangular asymmetric distances, penalty 0 and penalty < max C); "
+        "masses 0..50 with many zeros, equal-mass (permuted / rebalanced) and unequal-mass; a near-bound class scaled so that "
+        "max(sum P,sum Q)*max C + |sum P - sum Q|*penalty lies in [0.5,1)*2^31 (huge masses or huge distances); ground "
+        "distances: |i-j|, thresholded |i-j|, 2-D grid L1, shortest-path closure of a random graph (metrics), symmetric "
+        "non-metric, arbitrary, constant, all-zero, 'many entries equal to max' (node removal and pre_flow_cost); penalty "
+        "None / 0 / small / about max/2 / large. Tiny class (<=3x3, masses <=4) also against the brute-force enumeration. "
+        "Non-trivial = at least 2 non-empty bins on each side, non-constant c, and an optimal flow with >= 2 non-zero "
+        "entries; distinct by hash of the case.")
 TRUSTED = ["modelled at algorithm level, not verified line by line: min_cost_flow.hpp (binary heap, reduced-cost updates); "
            "the model uses successive shortest paths with Bellman-Ford on the same reduced graph",
            "the Python Bellman-Ford that proposes the dual point (alpha, beta, gamma) is untrusted: the extracted, proved "
            "checker emd_cert_ok verifies it",
            "NumPy int32 conversion of the arguments in the wrapper (np.ascontiguousarray)"]
-ASSUMPTIONS = ["no int32 overflow: sum(P)*max(C) + |sum P - sum Q|*penalty < 2^31 (generator bound, stated)",
+ASSUMPTIONS = ["length-1 histograms are not passed as strided int32 views (candidate finding C10-cand-1: out-of-bounds read in "
+               "np1D_to_vector; excluded from the generator and counted)",
+               "no int32 overflow: sum(P)*max(C) + |sum P - sum Q|*penalty < 2^31 (generator bound, stated)",
                "histograms are non-empty (len 0 makes the wrapper read vf[0] of an empty vector: outside the property's domain)",
                "explicit penalties are >= 0 (the value -1 is the C++ sentinel for 'default')",
                "gd_metric=True is only claimed for ground distances that are restrictions of a metric with zero diagonal"]
@@ -162,14 +170,116 @@ def _fixed():
     return out
 
 
+VEC_KINDS = ["int32", "int64", "int16", "int8", "uint8", "uint16", "uint32", "uint64", "float64", "float32", "list"]
+MAT_KINDS = ["int32", "int64", "int16", "uint8", "uint16", "uint32", "uint64", "float64", "float32"]
+LAYOUTS = ["C", "F", "strided", "T", "neg"]
+LIMITS = {"int8": 127, "uint8": 255, "int16": 32767, "uint16": 65535, "float32": 2 ** 24}
+
+
+def _fits(kind, vals):
+    return max([0] + [int(v) for v in vals]) <= LIMITS.get(kind, 2 ** 31 - 1)
+
+
+def _encode(rng, case):
+    """How the arguments are handed to emd_hat_int32: dtype of each argument (values always fit), memory layout of the
+    cost matrix and of the histograms, penalty as int / NumPy scalar / float, keywords or positional."""
+    flat = [x for r in case["c"] for x in r]
+    pk = [k for k in VEC_KINDS if _fits(k, case["p"])]
+    qk = [k for k in VEC_KINDS if _fits(k, case["q"])]
+    ck = [k for k in MAT_KINDS if _fits(k, flat)]
+    case["enc"] = {"p": str(rng.choice(pk)), "q": str(rng.choice(qk)), "c": str(rng.choice(ck)),
+                   "lay": str(rng.choice(LAYOUTS)), "pstr": bool(rng.rand() < 0.3), "qstr": bool(rng.rand() < 0.3),
+                   "penk": str(rng.choice(["int", "np32", "np64", "float"])), "pos": bool(rng.rand() < 0.3)}
+    # candidate finding C10-cand-1 (findings/C10.json): a length-1 int32 histogram that is a strided view makes the real
+    # wrapper read out of bounds (segfault).  Such calls are not generated; the exclusion is counted.
+    for k, sk, v in (("p", "pstr", case["p"]), ("q", "qstr", case["q"])):
+        if len(v) == 1 and case["enc"][sk] and case["enc"][k] == "int32":
+            case["enc"][sk] = False
+            case["excluded"] = case.get("excluded", 0) + 1
+    return case
+
+
+B31 = 2 ** 31 - 1
+
+
+def _near_bound(rng):
+    """Values scaled so that max(sum P, sum Q) * max C + |sum P - sum Q| * penalty lies in [0.5, 1) * 2^31: either huge
+    masses with small distances or huge distances with small masses."""
+    c = _instance(rng, 4, hi=9)
+    C = np.asarray(c["c"], dtype=object)
+    P = [int(x) for x in c["p"]]; Q = [int(x) for x in c["q"]]
+    if sum(P) + sum(Q) == 0:
+        P[0] = 1
+    mode = rng.rand()
+
+    def bound(P, Q, C, pen):
+        mx = max([0] + [int(x) for r in C for x in r])
+        pv = mx if pen is None else pen
+        return max(sum(P), sum(Q)) * max(mx, 1) + abs(sum(P) - sum(Q)) * pv
+    pen = c["pen"]
+    u = 0.5 + 0.5 * rng.rand()
+    if mode < 0.5:      # scale the masses
+        w0 = bound(P, Q, C.tolist(), pen)
+        g = max(1, int(B31 * u) // max(w0, 1))
+        P = [x * g for x in P]; Q = [x * g for x in Q]
+        if rng.rand() < 0.5 and g > 10:      # break the common factor a little
+            k = int(rng.randint(len(P)))
+            if P[k] > 0:
+                P[k] -= int(rng.randint(0, 7))
+    else:               # scale the distances (and the penalty with them)
+        h = 1
+        w0 = bound(P, Q, C.tolist(), pen)
+        h = max(1, int(B31 * u) // max(w0, 1))
+        C = C * h
+        if pen is not None:
+            pen = min(pen * h, B31)      # the penalty itself is an int32 argument
+    Cl = [[int(x) for x in r] for r in C.tolist()]
+    while bound(P, Q, Cl, pen) > B31:     # perturbations can only lower it, but stay safe
+        P = [x // 2 for x in P]; Q = [x // 2 for x in Q]
+    c.update({"p": P, "q": Q, "c": Cl, "pen": pen, "tiny": False, "kind": c["kind"] + "+big"})
+    return c
+
+
+def _shape_extremes(rng, nmax):
+    """length-1 histograms, highly unequal lengths, one side all zero, ties / zeros / asymmetry in the distances,
+    penalty 0 and penalty below max C."""
+    u = rng.rand()
+    if u < 0.25:
+        n, m = 1, int(rng.randint(1, nmax + 1))
+    elif u < 0.5:
+        n, m = int(rng.randint(1, nmax + 1)), 1
+    elif u < 0.75:
+        n, m = int(rng.randint(1, 3)), int(rng.randint(nmax // 2 + 1, nmax + 1))
+    else:
+        n, m = int(rng.randint(nmax // 2 + 1, nmax + 1)), int(rng.randint(1, 3))
+    kind = str(rng.choice(["line", "thr", "arb", "ties", "asym", "zero", "maxy"]))
+    if kind == "ties":
+        C = rng.randint(0, 3, (n, m)); metric = False
+    elif kind == "asym":
+        C = np.triu(rng.randint(0, 9, (max(n, m), max(n, m))))[:n, :m]; metric = False
+    else:
+        C, metric = _gd(rng, n, m, kind)
+    P = _hist(rng, n, 30); Q = _hist(rng, m, 30)
+    v = rng.rand()
+    if v < 0.15:
+        P[:] = 0
+    elif v < 0.3:
+        Q[:] = 0
+    mx = int(np.max(C))
+    w = rng.rand()
+    pen = None if w < 0.3 else 0 if w < 0.55 else int(rng.randint(0, max(mx, 1))) if w < 0.9 else mx + 3
+    return {"p": [int(x) for x in P], "q": [int(x) for x in Q], "c": np.asarray(C).astype(int).tolist(), "pen": pen,
+            "metric": bool(metric), "kind": "x-" + kind, "tiny": bool(n <= 3 and m <= 3 and max(list(P) + list(Q) + [0]) <= 4)}
+
+
 def generate(ctx):
     rng = ctx.rng
     cases = _corpus() + _fixed()
     for _ in range(ctx.n(600, 6000)):
         cases.append(_instance(rng, 3, tiny=True))
-    for _ in range(ctx.n(1800, 24000)):
+    for _ in range(ctx.n(1800, 20000)):
         cases.append(_instance(rng, ctx.n(7, 12)))
-    for _ in range(ctx.n(40, 1500)):
+    for _ in range(ctx.n(40, 1200)):
         cases.append(_instance(rng, ctx.n(12, 25)))
     for _ in range(ctx.n(60, 800)):
         # larger values, small shapes (int32 range respected: 4*2000*2000 + 8000*6000 < 2^31)
@@ -178,43 +288,100 @@ def generate(ctx):
         if c["pen"] is not None:
             c["pen"] = int(c["pen"]) * 100
         cases.append(c)
+    for _ in range(ctx.n(300, 3000)):
+        cases.append(_shape_extremes(rng, ctx.n(9, 20)))
+    for _ in range(ctx.n(200, 2000)):
+        cases.append(_near_bound(rng))
+    # every generated case (not the corpus / fixed ones, which keep the plain int32 C-contiguous call) is handed over in
+    # a randomly drawn dtype / layout / calling convention
+    k0 = len(_corpus()) + len(_fixed())
+    for c in cases[k0:]:
+        if rng.rand() < 0.7:
+            _encode(rng, c)
     for c in cases:
         ctx.count("kind:" + c.get("kind", "?"))
         ctx.count("shape:%s" % ("equal" if len(c["p"]) == len(c["q"]) else "unequal"))
-        ctx.count("pen:%s" % ("default" if c["pen"] is None else "explicit"))
+        ctx.count("pen:%s" % ("default" if c["pen"] is None else "zero" if c["pen"] == 0 else "explicit"))
         sp, sq = sum(c["p"]), sum(c["q"])
         ctx.count("mass:%s" % ("equal" if sp == sq else "P>Q" if sp > sq else "P<Q"))
+        if sp == 0 or sq == 0:
+            ctx.count("mass:one side all zero")
         if c.get("metric"):
             ctx.count("gd_metric variants")
+        if c.get("excluded"):
+            ctx.count("excluded:length-1 strided int32 view (candidate finding C10-cand-1)", c.pop("excluded"))
+        e = c.get("enc")
+        if e:
+            ctx.count("dtype p:" + e["p"]); ctx.count("dtype q:" + e["q"]); ctx.count("dtype c:" + e["c"])
+            ctx.count("layout c:" + e["lay"])
     return cases
 
 
 # ------------------------------------------------------------------------------------------ implementation
+def _enc_vec(vals, kind, strided):
+    if kind == "list":
+        return [int(v) for v in vals]
+    a = np.array(vals, dtype=kind)
+    if strided:
+        b = np.zeros(2 * len(vals) + 1, dtype=kind)
+        b[1::2] = a
+        return b[1::2]
+    return a
+
+
+def _enc_mat(vals, n, m, kind, lay):
+    a = np.array(vals, dtype=kind).reshape(n, m)
+    if lay == "F":
+        return np.asfortranarray(a)
+    if lay == "strided":
+        b = np.full((2 * n + 1, 3 * m + 2), 77, dtype=kind)
+        b[1::2, 2::3] = a
+        return b[1::2, 2::3]
+    if lay == "T":
+        return np.ascontiguousarray(a.T).T
+    if lay == "neg":
+        return np.ascontiguousarray(a[::-1, ::-1])[::-1, ::-1]
+    return a
+
+
 def impl(case):
     from centrosome import fastemd as M
-    p = np.array(case["p"], np.int32)
-    q = np.array(case["q"], np.int32)
-    c = np.array(case["c"], np.int32).reshape(len(case["p"]), len(case["q"]))
+    n, m = len(case["p"]), len(case["q"])
+    e = case.get("enc") or {"p": "int32", "q": "int32", "c": "int32", "lay": "C", "pstr": False, "qstr": False,
+                            "penk": "int", "pos": False}
+    p = _enc_vec(case["p"], e["p"], e["pstr"])
+    q = _enc_vec(case["q"], e["q"], e["qstr"])
+    c = _enc_mat(case["c"], n, m, e["c"], e["lay"])
     pen = case["pen"]
+    if pen is not None:
+        pen = {"int": int, "np32": np.int32, "np64": np.int64, "float": float}[e["penk"]](pen)
     fts = [M.EMD_NO_FLOW, M.EMD_WITHOUT_TRANSHIPMENT_FLOW, M.EMD_WITHOUT_EXTRA_MASS_FLOW]
     res = []
     for g, f in VARIANTS:
         if g and not case.get("metric"):
             continue
-        kw = {}
-        if pen is not None:
-            kw["extra_mass_penalty"] = pen
-        if f:
-            kw["flow_type"] = fts[f]
-        if g:
-            kw["gd_metric"] = True
-        r = M.emd_hat_int32(p, q, c, **kw)
+        if e["pos"]:
+            r = M.emd_hat_int32(p, q, c, pen, fts[f], bool(g))
+        else:
+            kw = {}
+            if pen is not None:
+                kw["extra_mass_penalty"] = pen
+            if f:
+                kw["flow_type"] = fts[f]
+            if g:
+                kw["gd_metric"] = True
+            r = M.emd_hat_int32(p, q, c, **kw)
         if f == 0:
             res.append([g, f, int(r), None])
         else:
             d, F = r
             F = np.asarray(F)
-            res.append([g, f, int(d), F.tolist() if F.shape == (len(p), len(q)) else {"shape": list(F.shape)}])
+            res.append([g, f, int(d), F.tolist() if F.shape == (n, m) else {"shape": list(F.shape)}])
+    # the arguments must not have been modified
+    if not (np.array_equal(np.asarray(p, dtype=object), np.asarray(case["p"], dtype=object))
+            and np.array_equal(np.asarray(q, dtype=object), np.asarray(case["q"], dtype=object))
+            and np.array_equal(np.asarray(c).astype(object), np.asarray(case["c"], dtype=object).reshape(n, m))):
+        return {"v": res, "mutated": True}
     return {"v": res}
 
 
@@ -236,27 +403,15 @@ def _run_models(ctx, cases):
         for g, f in _variants(c):
             args.append(_margs(c, g, f)); where.append(k)
     res = [[] for _ in cases]
-    for k, r in zip(where, ctx.run_model("entry_emd", args)):
+    for k, r in zip(where, ctx.run_model("entry_emdc", args)):
         res[k].append(r)
     return res
 
 
 def model(ctx, cases, outs):
-    """Per case: the model's (dist, F) for every variant, plus the verdict of the verified checker on the MODEL's own
-    full flows (dual point found by the same untrusted Bellman-Ford)."""
-    ms = _run_models(ctx, cases)
-    args, where = [], []
-    for k, (c, m) in enumerate(zip(cases, ms)):
-        for (g, f), r in zip(_variants(c), m):
-            if f == 2 and isinstance(r, list) and len(r) == 2:
-                dual = find_dual(c["p"], c["q"], c["c"], r[1]) if _shape_ok(c, r[1]) else None
-                al, be, ga = dual if dual else ([0] * len(c["p"]), [0] * len(c["q"]), 0)
-                args.append([c["p"], c["q"], c["c"], penalty_value(c), r[0], r[1], al, be, ga]); where.append(k)
-    ok = [True] * len(cases)
-    for k, r in zip(where, ctx.run_model("entry_cert", args) if args else []):
-        if r != 1:
-            ok[k] = False
-    return [{"r": m, "cert": o} for m, o in zip(ms, ok)]
+    """Per case: the certified model's (dist, F) for every variant.  entry_emdc only answers when its own full flow
+    passed emd_cert_ok inside the model (theorem C10_model_emd_correct), so no separate check of the model's flow."""
+    return [{"r": m, "cert": True} for m in _run_models(ctx, cases)]
 
 
 def _shape_ok(c, F):
@@ -272,7 +427,7 @@ def compare(case, out, mo):
         return "variant count differs"
     for (g, f), o, r in zip(vs, out["v"], m):
         if not isinstance(r, list) or len(r) != 2:
-            return "model out of fuel / failed on variant gd=%d flow=%d: %s" % (g, f, str(r)[:100])
+            return "certified model gave no answer (out of fuel or its own certificate failed) on variant gd=%d flow=%d: %s" % (g, f, str(r)[:100])
         if r[0] != o[2]:
             return "distance differs on variant gd_metric=%d flow_type=%d: impl %d model %d" % (g, f, o[2], r[0])
     if not mo["cert"]:
@@ -350,6 +505,8 @@ def check(ctx, cases, outs):
         vs = _variants(c)
         if len(o["v"]) != len(vs):
             res[k] = "variant count"; continue
+        if o.get("mutated"):
+            res[k] = "emd_hat_int32 modified its arguments"; continue
         penv = penalty_value(c)
         ds = set(v[2] for v in o["v"])
         if len(ds) != 1:
@@ -402,12 +559,12 @@ def nontrivial(case, out):
 def kernel_crosscheck(ctx, cases, outs):
     idx = [k for k, c in enumerate(cases) if not _bad(outs[k]) and len(c["p"]) <= 4 and len(c["q"]) <= 4
            and sum(c["p"]) + sum(c["q"]) <= 60][:30]
-    args = [_margs(cases[k], 0, 2) for k in idx]
-    exp = ctx.run_model("entry_emd", args)
-    r = ctx.coq_eval_eq("Model.Emd", "entry_emd", args, exp, tag="emd")
-    bad = [k for k, b in zip(idx, r) if b is not True]
+    args = [_margs(cases[k], 0, 2) for k in idx] + [_margs(cases[k], 1 if cases[k].get("metric") else 0, 1) for k in idx[:10]]
+    exp = ctx.run_model("entry_emdc", args)
+    r = ctx.coq_eval_eq("Model.EmdCert", "entry_emdc", args, exp, tag="emd")
+    bad = [k for k, b in zip(idx + idx[:10], r) if b is not True]
     if bad:
-        return "vm_compute evaluation of Model.Emd.entry_emd differs from the extracted program on case %d" % bad[0], len(idx)
+        return "vm_compute evaluation of Model.EmdCert.entry_emdc differs from the extracted program on case %d" % bad[0], len(args)
     # the checker itself: kernel evaluation must accept what the extracted checker accepted
     cargs = []
     for k in idx:
@@ -419,8 +576,8 @@ def kernel_crosscheck(ctx, cases, outs):
     exp = ctx.run_model("entry_cert", cargs)
     r = ctx.coq_eval_eq("Spec.Emd", "entry_cert", cargs, exp, tag="cert")
     if not all(b is True for b in r):
-        return "vm_compute evaluation of Spec.Emd.entry_cert differs from the extracted checker", len(idx) + len(cargs)
-    return None, len(idx) + len(cargs)
+        return "vm_compute evaluation of Spec.Emd.entry_cert differs from the extracted checker", len(args) + len(cargs)
+    return None, len(args) + len(cargs)
 
 
 def search_cases(ctx, rnd):
@@ -445,6 +602,8 @@ def shrink_candidates(case):
             d["metric"] = len(p2) == len(q2) and _metric_ok(np.asarray(c2))
         d["tiny"] = len(p2) <= 3 and len(q2) <= 3 and max(p2 + q2 + [0]) <= 4
         return d
+    if case.get("enc"):
+        d0 = dict(case); d0.pop("enc"); yield d0
     if case.get("metric"):
         # keep "c is the top-left block of a metric": drop a point from both sides, or the last row / column
         for i in range(min(n, m)):
@@ -490,8 +649,11 @@ MANIFEST = {
         "variant; the no-flow and partial-flow variants and the gd_metric variants must return the same (unique, proved) "
         "value. Zero padding is proved not to change the optimum (padding_invariant). An executable Gallina model of the "
         "wrapper, of the graph reduction of emd_hat_impl.hpp and of a successive-shortest-path solver is compared exactly "
-        "(distance) with the freshly built implementation on the same instances, and cross-checked against vm_compute; "
-        "tiny instances are also compared with a brute-force enumeration of all integral flows."),
+        "(distance) with the freshly built implementation on the same instances, and cross-checked against vm_compute; every "
+        "answer of that model is proved to be the earth mover's distance (the model certifies its own full flow with "
+        "emd_cert_ok; that it always answers is observed, not proved). Also proved: the metric shortcut (diagonal pre-flow "
+        "keeps the optimum under the triangle inequality) and what an accepted partial flow guarantees. Tiny instances are "
+        "also compared with a brute-force enumeration of all integral flows."),
     "level_note": (
         "Trusted: Coq kernel + vm_compute; extraction (ExtrOcamlBasic only) and the S-expression driver; the Python harness. "
         "Modelled, not verified: the C++ min-cost-flow heap code (the model solves the same reduced graph at algorithm "
